@@ -696,3 +696,61 @@ Example read24_example :
      rev (log st') = [(1, 0, 8454143, 0); (2, 0, 8388608, 0); (2, 0, 8388609, 0)]) /\
   ea_read24_wrap W rt 8388622 (mkState [] []) = Panic (mkState [] []).
 Proof. cbv zeta. split; [eexists; split; vm_compute; reflexivity|vm_compute; reflexivity]. Qed.
+
+(* arithmetic of the three addresses: same bank, offset + k modulo 2^16; they stay below 2^24 *)
+Lemma lor_hi_lo : forall h l, 0 <= l < 65536 -> Z.lor (Z.shiftl h 16) l = h * 65536 + l.
+Proof.
+  intros h l Hl. rewrite Z.shiftl_mul_pow2 by lia. change (2 ^ 16) with 65536.
+  assert (Hz : Z.land (h * 65536) l = 0); [|rewrite <- (Z.lxor_lor _ _ Hz); symmetry; apply Z.add_nocarry_lxor; exact Hz].
+  apply Z.bits_inj'. intros n Hn. rewrite Z.land_spec, Z.bits_0.
+  destruct (Z.ltb_spec n 16) as [Hlt|Hge].
+  - change 65536 with (2 ^ 16). rewrite Z.mul_pow2_bits_low by lia. reflexivity.
+  - replace l with (l mod 2 ^ 16) by (change (2 ^ 16) with 65536; apply Z.mod_small; lia).
+    rewrite Z.mod_pow2_bits_high by lia. apply andb_false_r.
+Qed.
+
+Theorem r24_addr_arith : forall a k, 0 <= a < ABITS ->
+  r24_addr a k = (a / 65536) * 65536 + (a mod 65536 + k) mod 65536.
+Proof.
+  intros a k Ha. unfold ABITS in Ha. unfold r24_addr.
+  rewrite lor_hi_lo by (apply Z.mod_pos_bound; lia).
+  rewrite Z.shiftr_div_pow2 by lia. change (2 ^ 16) with 65536.
+  replace 255 with (Z.ones 8) by reflexivity. rewrite Z.land_ones by lia. change (2 ^ 8) with 256.
+  replace 65535 with (Z.ones 16) by reflexivity. rewrite Z.land_ones by lia. change (2 ^ 16) with 65536.
+  rewrite (Z.mod_small (a / 65536) 256) by lia. reflexivity.
+Qed.
+
+Theorem r24_addr_range : forall a k, 0 <= a < ABITS -> 0 <= r24_addr a k < ABITS.
+Proof. intros a k Ha. rewrite r24_addr_arith by assumption. unfold ABITS in *. lia. Qed.
+
+Theorem r24_addr_same_bank : forall a k, 0 <= a < ABITS -> r24_addr a k / 65536 = a / 65536.
+Proof. intros a k Ha. rewrite r24_addr_arith by assumption. unfold ABITS in *. lia. Qed.
+
+Theorem r24_addr_0 : forall a, 0 <= a < ABITS -> r24_addr a 0 = a.
+Proof. intros a Ha. rewrite r24_addr_arith by assumption. unfold ABITS in *. lia. Qed.
+
+(* after any history of Attach calls: the three bytes come from the memories last attached over the three
+   in-bank addresses, each receiving its full address; any of them never attached: loud failure, nothing touched *)
+Theorem read24_after_history : forall W h a st,
+  Forall call_wf h -> 0 <= a < ABITS ->
+  ea_read24_wrap W (run_calls empty_rt h) a st =
+  match last_cover h (r24_addr a 0), last_cover h (r24_addr a 1), last_cover h (r24_addr a 2) with
+  | Some m0, Some m1, Some m2 =>
+      match mem_read W m0 (r24_addr a 0) st with
+      | Panic s0 => Panic s0
+      | Ok ll s0 =>
+          match mem_read W m1 (r24_addr a 1) s0 with
+          | Panic s1 => Panic s1
+          | Ok mm s1 =>
+              match mem_read W m2 (r24_addr a 2) s1 with
+              | Panic s2 => Panic s2
+              | Ok hh s2 => Ok (Z.lor (Z.lor (Z.shiftl hh 16) (Z.shiftl mm 8)) ll) s2
+              end
+          end
+      end
+  | _, _, _ => Panic st
+  end.
+Proof.
+  intros W h a st Hwf Ha. unfold ea_read24_wrap. cbv zeta.
+  rewrite !route_history by (try assumption; apply r24_addr_range; assumption). reflexivity.
+Qed.
